@@ -1,4 +1,5 @@
 """Generate obligations for every contract of the given modules from the current source, discharge them in a process pool."""
+import collections
 import multiprocessing
 import os
 import subprocess
@@ -99,6 +100,73 @@ def _solve(job):
     return out
 
 
+def _child(job, conn):
+    try:
+        conn.send(_solve(job))
+    except Exception as e:          # pragma: no cover
+        conn.send(dict(name=job[0], idx=job[1], status='unknown', backend='z3', model=None, solver_output='worker error: %r' % e, time_s=0.0))
+    finally:
+        conn.close()
+
+
+def solve_all(jobs, workers):
+    """one process per query, at most `workers` at a time, each killed when it overruns its budget (z3's own timeout is soft:
+    the string solver can ignore it), so a check always terminates"""
+    ctx = multiprocessing.get_context('fork')
+    pending = list(jobs)
+    running = []
+    results = []
+    while pending or running:
+        while pending and len(running) < workers:
+            job = pending.pop(0)
+            parent, child = ctx.Pipe(duplex=False)
+            p = ctx.Process(target=_child, args=(job, child))
+            p.start()
+            child.close()
+            running.append((p, parent, job, time.time() + job[3] / 1000.0 * 1.3 + 10))
+        still = []
+        for p, conn, job, deadline in running:
+            if conn.poll(0):
+                try:
+                    results.append(conn.recv())
+                except EOFError:
+                    results.append(dict(name=job[0], idx=job[1], status='unknown', backend='z3', model=None, solver_output='worker died', time_s=0.0))
+                p.join(5)
+                continue
+            if not p.is_alive():
+                results.append(dict(name=job[0], idx=job[1], status='unknown', backend='z3', model=None, solver_output='worker died', time_s=0.0))
+                continue
+            if time.time() > deadline:
+                p.kill()
+                p.join(5)
+                subprocess.run(['pkill', '-P', str(p.pid)], capture_output=True)
+                results.append(dict(name=job[0], idx=job[1], status='unknown', backend='z3', model=None,
+                                    solver_output='killed after exceeding the budget of %d ms' % job[3], time_s=job[3] / 1000.0))
+                continue
+            still.append((p, conn, job, deadline))
+        running = still
+        if running:
+            time.sleep(0.02)
+    return results
+
+
+def relevant_axioms(hyps, goal):
+    """the element-access / membership link axioms are only needed where their function occurs (keeps simple queries
+    quantifier-free, so that the solver can answer `sat` with a model instead of `unknown`)"""
+    from .values import AT_AXIOM_NAMES
+    text = ' '.join(h.sexpr() for h in hyps) + ' ' + goal.sexpr()
+    need = set()
+    changed = True
+    while changed:
+        changed = False
+        for ax, name in zip(AT_AXIOMS, AT_AXIOM_NAMES):
+            if id(ax) not in need and ('(%s ' % name) in text:
+                need.add(id(ax))
+                text += ' ' + ax.sexpr()
+                changed = True
+    return [ax for ax in AT_AXIOMS if id(ax) in need]
+
+
 def to_smt2(hyps, goal):
     s = z3.Solver()
     for h in hyps:
@@ -153,7 +221,7 @@ def verify_modules(modnames, tier='quick', prop=None, only=None):
                 for idx, (hyps, goal, where) in enumerate(o.queries):
                     if z3.is_true(goal):
                         continue
-                    smt2 = to_smt2(list(ex.hyp_axioms) + list(AT_AXIOMS) + hyps, goal)
+                    smt2 = to_smt2(list(ex.hyp_axioms) + relevant_axioms(list(ex.hyp_axioms) + hyps, goal) + hyps, goal)
                     if obl_meta[name]['smt2_sample'] is None:
                         obl_meta[name]['smt2_sample'] = smt2[-900:]
                     jobs.append((name, idx, smt2, timeout, True))
@@ -162,15 +230,14 @@ def verify_modules(modnames, tier='quick', prop=None, only=None):
     if jobs or cover_jobs:
         all_jobs = jobs + cover_jobs
         first = []
-        with multiprocessing.get_context('fork').Pool(min(10, len(all_jobs))) as pool:
-            for r in pool.imap_unordered(_solve, all_jobs, chunksize=1):
-                first.append(r)
+        first = solve_all(all_jobs, min(10, len(all_jobs)))
+        unknown = collections.Counter(r['name'] for r in first if r['status'] == 'unknown')
+        # a retry is for the odd query that ran out of budget under load, not for an obligation that fails on many paths
         retry = [(n, i, smt, t * RETRY_FACTOR, c) for (n, i, smt, t, c) in jobs
-                 if any(r['name'] == n and r['idx'] == i and r['status'] == 'unknown' for r in first)]
+                 if unknown.get(n, 0) <= 2 and any(r['name'] == n and r['idx'] == i and r['status'] == 'unknown' for r in first)]
         if retry:
             keep = [r for r in first if not any(r['name'] == j[0] and r['idx'] == j[1] for j in retry)]
-            with multiprocessing.get_context('fork').Pool(min(4, len(retry))) as pool:
-                second = pool.map(_solve, retry, chunksize=1)
+            second = solve_all(retry, min(4, len(retry)))
             for r in second:
                 r['solver_output'] = 'after retry with %d ms: %s' % (retry[0][3], r['solver_output'])
             first = keep + second
